@@ -70,9 +70,25 @@ type listener struct {
 	n       *Net
 }
 
+// norm maps the spellings of one endpoint to one key: an empty host, 0.0.0.0, localhost and the
+// loopback addresses all mean "this host" (hosts with names of their own are machines of their
+// own), as they do for net.Listen and net.Dial.
+func norm(address string) string {
+	host, port, err := net.SplitHostPort(address)
+	if err != nil {
+		return address
+	}
+	switch host {
+	case "", "0.0.0.0", "::", "localhost", "127.0.0.1", "::1":
+		return ":" + port
+	}
+	return address
+}
+
 // Listen is net.Listen.
 func Listen(network, address string) (net.Listener, error) {
 	rt.Yield()
+	address = norm(address)
 	n := cur
 	if n.listeners == nil {
 		n.listeners = map[string]*listener{}
@@ -144,6 +160,7 @@ func Dial(network, address string) (net.Conn, error) {
 			rt.Sleep(d)
 		}
 	}
+	address = norm(address)
 	l := n.listeners[address]
 	if l == nil || l.closed {
 		n.Refused++
